@@ -153,9 +153,11 @@ def _gen_value0(rng, param=None, depth=0):
             return rng.choice([{"t": "str", "v": rng.choice(list(CMD_INFO) + ["nosuch"])},
                                {"t": "cmd", "v": rng.choice(list(CMD_INFO))},
                                {"t": "cmd", "v": rng.choice(list(CMD_INFO))},
-                               {"t": "cmd2", "v": rng.choice(list(CMD_INFO))}])
+                               {"t": "cmd2", "v": rng.choice(list(CMD_INFO))},
+                               {"t": "cmd3", "v": rng.choice(list(CMD_INFO))}])
         if c == "Tuple":
-            return rng.choice([{"t": "dict", "v": {"K": "v", "n": 5}}, {"t": "list", "v": []}, {"t": "dict", "v": {}}])
+            return rng.choice([{"t": "dict", "v": {"K": "v", "n": 5}}, {"t": "list", "v": []}, {"t": "dict", "v": {}},
+                               {"t": "dict", "v": {"Path": "C:\\new\\table", "Note": "a\\\\nb", "Pct": "100%"}}])
         if c == "DataType":
             return rng.choice([{"t": "str", "v": rng.choice(["Float", "Integer", "Positive Float", "Fuzzy"])},
                                {"t": "str", "v": rng.choice(["Float", "Integer", "Positive Float", "Fuzzy"])},
@@ -260,6 +262,15 @@ def build_value(spec, ctx):
         return ctx["program"].commands[spec["v"]]
     if t == "cmd2":
         return ctx["program2"].commands[spec["v"]]
+    if t == "cmd3":
+        # a command object under a result name the program has never heard of (built by hand / taken from elsewhere)
+        cache = ctx.setdefault("cmd3", {})
+        if spec["v"] not in cache:
+            import copy as _copy
+            c3 = _copy.copy(ctx["program2"].commands[spec["v"]])
+            c3.result_name = "zz_" + spec["v"]
+            cache[spec["v"]] = c3
+        return cache[spec["v"]]
     if t == "type":
         return {"float": float, "int": int, "numpy.float64": numpy.float64, "numpy.uint": numpy.uint, "str": str}[spec["v"]]
     if t == "array":
@@ -288,6 +299,8 @@ def kind_of(spec):
         return "str"
     if spec["t"] == "cmd2":
         return "cmd-of-another-program"
+    if spec["t"] == "cmd3":
+        return "cmd-with-unknown-name"
     return spec["t"]
 
 
@@ -413,7 +426,7 @@ def expect(spec, value, ctx):
             cmd = value
         else:
             return ("error", ("ParameterNotValid",))
-        info = CMD_INFO[cmd.result_name]
+        info = CMD_INFO[cmd.result_name[3:] if cmd.result_name.startswith("zz_") else cmd.result_name]
         errs = []
         if spec.get("fz") is True and not info["fuzzy"]:
             return ("error", ("ResultNotFuzzy",))
